@@ -765,6 +765,12 @@ package compose
 // a nested graph is the only node built with a nil option type that is not a pass-through (graph_run.go toComposableRunnable; runnable.go composablePassthrough); every component and lambda has a non-nil option type
 //@ spec isGraphNode(c *chanCall) bool = c.action.optionType == nil && !c.action.isPassthrough
 
+//@ func unpackStreamReader$1
+//@   props C08 C04
+//@   note the chunk of a StreamReader[any] is a value of the interface type T boxed as any, nil for its nil value
+//@   requires[chunk_is_a_boxed_T] t == nil || is(t, "T")
+//@   ensures[no_error] result1 == nil
+
 //@ func extractOption
 //@   props C16 C09
 //@   after call 3 append: assert[option_forwarded_to_a_nested_graph_is_undesignated] @C16 len(result) >= 1 && is(result[len(result) - 1], "Option") && len(unbox(result[len(result) - 1], "Option").paths) == 0
@@ -859,8 +865,12 @@ package compose
 //@   props C17 C13
 //@   requires run != nil && len(tasks) >= 1
 //@   modifies elemsField(tasks, "output"), elemsField(tasks, "sOutput"), elemsField(tasks, "err"), region("F|compose.toolCallTask|err"), region("GHOST|")
+//@   ghost forked int = 0
+//@   at call wg.Add: ghost forked++
+//@   at call run: assert[every_other_call_is_started_before_the_first_runs_inline] @C17 forked == len(tasks) - 1
+//@   note the calls run concurrently only if the goroutines of calls 1..n-1 exist before call 0 runs on the caller's goroutine: a tool may wait for another tool of the same message
 //@   loop 1:
-//@     invariant[idx] 1 <= i
+//@     invariant[idx] 1 <= i && i <= len(tasks) && forked == i - 1
 //@   note the forked calls write their own task cell through the interior pointer &tasks[i] (disjoint cells; WaitGroup join); the engine does not track interior pointers, so the write set is declared here and is trusted
 
 //@ func parallelRunToolCall$1
@@ -1281,6 +1291,7 @@ package compose
 //@   at call tm.submit: ghost supersteps++
 //@   at call 1 r.handleInterrupt: assert[initial_before_reported] @C06 forall(i int :: 0 <= i && i < len(nextTasks) && inList(nextTasks[i].nodeKey, r.interruptBeforeNodes) ==> inList(nextTasks[i].nodeKey, hit))
 //@   at call r.handleInterruptWithSubGraphAndRerunNodes: assert[nothing_outstanding_when_interrupting] @C03 tm.num == 0
+//@   at call 1 r.handleInterruptWithSubGraphAndRerunNodes: assert[every_collected_task_reaches_the_checkpoint] @C03,C05 len(arg4) == len(completedTasks) + len(cpt)
 //@   at call 2 r.handleInterrupt: assert[nothing_outstanding_when_interrupting_plain] @C03 tm.num == 0
 //@   at call 2 r.handleInterruptWithSubGraphAndRerunNodes: assert[tasks_made_ready_before_the_drain_are_saved] @C05 len(arg5) == len(nextTasks) && arr(arg5) == arr(nextTasks) && off(arg5) == off(nextTasks)
 //@   at call 2 r.handleInterruptWithSubGraphAndRerunNodes: assert[tasks_already_folded_are_not_folded_again] @C05 len(arg4) == len(newCompletedTasks) && arr(arg4) == arr(newCompletedTasks) && off(arg4) == off(newCompletedTasks)
@@ -1799,6 +1810,17 @@ package compose
 //@   after call f.Type: ghost declared = result
 //@   ensures[declared_field_type_reported] @C15 err == nil ==> takenType == declared
 //@   ensures[no_value_on_error] @C15 err != nil ==> takenType == nil
+
+//@ func validateFieldMapping$5
+//@   props C15 C04
+//@   skip pre safe frame
+//@   note the combined run-time checker sees whole values and single stream chunks alike: a chunk holds only some of the mapped keys, and a key that is absent must not be checked (its checker would be handed nil and reject it)
+//@   at call v.invoke: assert[a_field_absent_from_this_value_is_not_checked] @C15,C04 in(k, mValue)
+//@   at call v.invoke: assert[the_checker_of_a_field_gets_that_field] @C15 arg0 == mValue[k]
+//@   loop 1:
+//@     invariant[keys_kept] mValue == unbox(value, "map[string]any") && forall(q string :: in(q, mValue) == old(in(q, unbox(value, "map[string]any"))))
+//@   loop 2:
+//@     invariant[keys_kept] mValue == unbox(value, "map[string]any") && forall(q string :: in(q, mValue) == old(in(q, unbox(value, "map[string]any"))))
 
 //@ func validateFieldMapping$6
 //@   props C04 C15
